@@ -40,8 +40,8 @@ type Graph struct {
 	Body  *ast.BlockStmt
 	V     []*Vertex
 	Entry int
-	Exit  int // normal return (return statement or falling off the end)
-	Panic int // no-return call
+	Exit  int       // normal return (return statement or falling off the end)
+	Panic int       // no-return call
 	nodes []*Vertex // node vertices sorted by position for containment look-up
 }
 
